@@ -12,6 +12,8 @@ CLAIMED = {
  'C20': ('Lean proof over the event-trace model of Trainer.fit + correspondence run',
          'Trace theorem: fit = epochs copies of an explicit epoch block, hence epochs*batches steps, each step after forward(train mode)/zero_grad/backward, validation in eval mode inside no_grad with no step, grad mode restored, history shape, accuracy; the real Trainer is run with recording wrappers on the whole configuration grid and must produce the model trace.', '6 C20'),
 }
+CLAIMED['C12'] = ('Lean proof over the module-world model (ids, two ordered registries) + correspondence run',
+         'Theorems for every world/tree shape/sharing/assignment history: parameters() has no duplicates, equals first-occurrence de-duplication of the pre-order listing, contains exactly the parameters registered on reachable modules, num_params splits, setattr replaces the registration, train/eval reach exactly the descendants, Sequential order; random module programs with shared and re-assigned attributes are run on the real Module/Sequential and on the model.', '6 C12')
 PENDING = {}
 ALL = [f'C{i:02d}' for i in range(1, 21)]
 
